@@ -746,7 +746,7 @@ func (state *RuntimeState) setNewAuthCookie(w http.ResponseWriter,
 	return cookieVal, nil
 }
 
-func (state *RuntimeState) updateAuthCookieAuthlevel(w http.ResponseWriter, r *http.Request, authlevel int) (string, error) {
+func (state *RuntimeState) updateAuthCookieAuthlevel(w http.ResponseWriter, r *http.Request, username string, authlevel int) (string, error) {
 	var authCookie *http.Cookie
 	for _, cookie := range r.Cookies() {
 		if cookie.Name != authCookieName {
@@ -760,7 +760,7 @@ func (state *RuntimeState) updateAuthCookieAuthlevel(w http.ResponseWriter, r *h
 	}
 
 	var err error
-	cookieVal, err := state.updateAuthJWTWithNewAuthLevel(authCookie.Value, authlevel)
+	cookieVal, err := state.updateAuthJWTWithNewAuthLevel(authCookie.Value, username, authlevel)
 	if err != nil {
 		return "", err
 	}
